@@ -18,8 +18,10 @@ Need(v) == IF BUG = "need_ge" THEN BLe(T32, v) ELSE BLt(T32, v)
 Clamp(v) == BMin(v, T32)
 ClampN(n) == IF n < TN THEN n ELSE TN
 \* the fields the central ZIP64 record must carry, in the fixed order
+\* (a value EQUAL to the sentinel is carried as well: its 32-bit field is indistinguishable from the marker - D17)
+NeedC(v) == IF BUG = "central_gt" THEN BLt(T32, v) ELSE BLe(T32, v)
 CentralFields(us, cs, off) ==
-   (IF Need(us) THEN <<us>> ELSE <<>>) \o (IF Need(cs) THEN <<cs>> ELSE <<>>) \o (IF Need(off) THEN <<off>> ELSE <<>>)
+   (IF NeedC(us) THEN <<us>> ELSE <<>>) \o (IF NeedC(cs) THEN <<cs>> ELSE <<>>) \o (IF NeedC(off) THEN <<off>> ELSE <<>>)
 NeedEnd(n, cdsize, cdoff) == (IF BUG = "count_ge" THEN n >= TN ELSE n > TN) \/ Need(cdsize) \/ Need(cdoff)
 
 \* ---- the write-side rule (ZipWriter!WriteDataF, PoisonOnOversize): writing k more bytes into an entry
